@@ -9,6 +9,7 @@
 mod checks;
 mod gen;
 mod hooks;
+mod known;
 mod model;
 mod runner;
 mod seq;
@@ -43,17 +44,17 @@ fn run_check(id: &str, cfg: &RunCfg) -> Option<Report> {
     })
 }
 
-fn replay_check(id: &str, v: &serde_json::Value) -> Option<Result<(), String>> {
+fn replay_check(id: &str, v: &serde_json::Value, cfg: &RunCfg) -> Option<Result<(), String>> {
     Some(match id {
-        "C01" => checks::hist::replay(&checks::hist::C01, v),
-        "C02" => checks::hist::replay(&checks::hist::C02, v),
-        "C04" => checks::hist::replay(&checks::hist::C04, v),
-        "C04X" => checks::hist::replay(&checks::hist::C04X, v),
+        "C01" => checks::hist::replay(cfg, &checks::hist::C01, v),
+        "C02" => checks::hist::replay(cfg, &checks::hist::C02, v),
+        "C04" => checks::hist::replay(cfg, &checks::hist::C04, v),
+        "C04X" => checks::hist::replay(cfg, &checks::hist::C04X, v),
         "C05" => checks::c05::replay(v),
-        "C06" => checks::hist::replay(&checks::hist::C06, v),
-        "C07" => checks::hist::replay(&checks::hist::C07, v),
+        "C06" => checks::hist::replay(cfg, &checks::hist::C06, v),
+        "C07" => checks::hist::replay(cfg, &checks::hist::C07, v),
         "C09" => checks::c09::replay(v),
-        "C15" => checks::hist::replay(&checks::hist::C15, v),
+        "C15" => checks::hist::replay(cfg, &checks::hist::C15, v),
         "C16" => checks::codec::replay(v, false),
         "C17" => checks::codec::replay(v, true),
         "C18" => checks::c18::replay(v),
@@ -73,6 +74,17 @@ fn main() {
     install_quiet_panic_hook();
     let id = args[1].as_str();
     let root = verif_root();
+    if id == "witnesses" {
+        // (re)write the hand-written witness replay files of the known findings
+        let dir = format!("{root}/known");
+        let _ = std::fs::create_dir_all(&dir);
+        for (kf, prop, h) in checks::hist::witnesses() {
+            let v = serde_json::json!({"property": prop, "engine": "history", "case": h});
+            std::fs::write(format!("{dir}/{kf}.json"), serde_json::to_string_pretty(&v).unwrap()).unwrap();
+            println!("wrote {dir}/{kf}.json");
+        }
+        std::process::exit(0);
+    }
     if args[2] == "--replay" {
         let path = args.get(3).unwrap_or_else(|| usage());
         let text = std::fs::read_to_string(path).unwrap_or_else(|e| {
@@ -83,7 +95,8 @@ fn main() {
             eprintln!("bad replay file {path}: {e}");
             std::process::exit(2)
         });
-        match replay_check(id, &v) {
+        let rcfg = RunCfg { property: static_id(id), tier: Tier::Quick, seed: 0, workers: 1, scale: 1.0, root: root.clone() };
+        match replay_check(id, &v, &rcfg) {
             None => {
                 eprintln!("unknown property {id}");
                 std::process::exit(2)
@@ -114,7 +127,7 @@ fn main() {
         .and_then(|s| s.parse().ok())
         .unwrap_or_else(|| std::thread::available_parallelism().map(|n| n.get()).unwrap_or(8).min(16));
     let scale = std::env::var("VERIF_SCALE").ok().and_then(|s| s.parse().ok()).unwrap_or(1.0);
-    let cfg = RunCfg { property: static_id(id), tier, seed, workers, scale };
+    let cfg = RunCfg { property: static_id(id), tier, seed, workers, scale, root: root.clone() };
     let timer = Timer::start();
     let rep = match run_check(id, &cfg) {
         Some(r) => r,
